@@ -166,6 +166,9 @@ def impl(case):
     from space_packet_parser import xarr
     if _TMP is None:
         _TMP = Path(tempfile.mkdtemp(prefix="c18_"))
+        import atexit
+        import shutil
+        atexit.register(shutil.rmtree, _TMP, True)
 
     def run():
         d = docs.definition_py(case["doc"])
